@@ -1,9 +1,11 @@
 (* PV.C14.Refuted — counter-models: for every guard conjunct that exists because the CODE fails, a
    concrete dataset (the stored witness of the known finding, reproduced on the real code by the
    check) on which the guard is false and the unguarded statement is false of the model.
-   After the fix commits 0ec2f84 (first-dose test), f3d3785 ('ID' literal), 84913ce (squeeze) and
-   81d9761 (no covariates) the former witnesses of those four defects are regression examples of the
-   repaired behaviour. *)
+   After the fix commits 0ec2f84 (first-dose test), f3d3785 ('ID' literal), 84913ce (squeeze),
+   81d9761 (no covariates), 96db805 (explicit index), 53e373d (central_number), 1fa817f (EVID 4),
+   64ec1fd (dtypes) and 8de2b00 (record order) the former witnesses of those defects are regression
+   examples of the repaired behaviour; five defects remain (reset-group ties, observation between tied
+   doses, EVID of other records, id order in expand_additional_doses, negative TAD after a reset). *)
 From Coq Require Import ZArith List Bool.
 From PV Require Import C14.Model.
 Import ListNotations.
@@ -15,7 +17,7 @@ Definition w_doseid_first_dose : dataset :=
     (mkRow (1)%Z (1)%Z (0)%Z (0)%Z (4)%Z (0)%Z (0)%Z (0)%Z (0)%Z (0)%Z (0)%Z (0)%Z [(280)%Z] []); 
     (mkRow (2)%Z (2)%Z (0)%Z (40)%Z (0)%Z (0)%Z (0)%Z (0)%Z (0)%Z (0)%Z (0)%Z (0)%Z [(240)%Z] []); 
     (mkRow (3)%Z (2)%Z (0)%Z (0)%Z (4)%Z (0)%Z (0)%Z (0)%Z (0)%Z (0)%Z (0)%Z (0)%Z [(240)%Z] [])]).
-Definition mi_doseid_first_dose : minfo := (mkMinfo [((1)%Z, (1)%Z, true)]).
+Definition mi_doseid_first_dose : minfo := (mkMinfo [((1)%Z, (1)%Z, true)] 1).
 
 Definition w_doseid_reset_group : dataset :=
   (mkDs (mkSchema true true false false false false false false true true true) [
@@ -24,7 +26,7 @@ Definition w_doseid_reset_group : dataset :=
     (mkRow (2)%Z (1)%Z (4)%Z (0)%Z (4)%Z (0)%Z (0)%Z (0)%Z (0)%Z (0)%Z (0)%Z (0)%Z [(280)%Z] []); 
     (mkRow (3)%Z (1)%Z (0)%Z (0)%Z (0)%Z (3)%Z (0)%Z (0)%Z (0)%Z (0)%Z (0)%Z (0)%Z [(280)%Z] []); 
     (mkRow (4)%Z (1)%Z (4)%Z (0)%Z (8)%Z (0)%Z (0)%Z (0)%Z (0)%Z (0)%Z (0)%Z (0)%Z [(280)%Z] [])]).
-Definition mi_doseid_reset_group : minfo := (mkMinfo [((1)%Z, (1)%Z, true)]).
+Definition mi_doseid_reset_group : minfo := (mkMinfo [((1)%Z, (1)%Z, true)] 1).
 
 Definition w_doseid_obs_between_doses : dataset :=
   (mkDs (mkSchema true false false false false false false false true true true) [
@@ -33,7 +35,7 @@ Definition w_doseid_obs_between_doses : dataset :=
     (mkRow (2)%Z (1)%Z (20)%Z (0)%Z (4)%Z (0)%Z (0)%Z (0)%Z (0)%Z (0)%Z (0)%Z (0)%Z [(280)%Z] []); 
     (mkRow (3)%Z (1)%Z (20)%Z (40)%Z (0)%Z (0)%Z (0)%Z (0)%Z (0)%Z (0)%Z (0)%Z (0)%Z [(280)%Z] []); 
     (mkRow (4)%Z (1)%Z (24)%Z (0)%Z (8)%Z (0)%Z (0)%Z (0)%Z (0)%Z (0)%Z (0)%Z (0)%Z [(280)%Z] [])]).
-Definition mi_doseid_obs_between_doses : minfo := (mkMinfo [((1)%Z, (1)%Z, true)]).
+Definition mi_doseid_obs_between_doses : minfo := (mkMinfo [((1)%Z, (1)%Z, true)] 1).
 
 Definition w_id_literal : dataset :=
   (mkDs (mkSchema true true false false false false false false false true true) [
@@ -41,7 +43,7 @@ Definition w_id_literal : dataset :=
     (mkRow (1)%Z (1)%Z (4)%Z (0)%Z (4)%Z (0)%Z (0)%Z (0)%Z (0)%Z (0)%Z (0)%Z (0)%Z [(280)%Z] []); 
     (mkRow (2)%Z (1)%Z (8)%Z (40)%Z (0)%Z (1)%Z (0)%Z (0)%Z (0)%Z (0)%Z (0)%Z (0)%Z [(280)%Z] []); 
     (mkRow (3)%Z (1)%Z (12)%Z (0)%Z (8)%Z (0)%Z (0)%Z (0)%Z (0)%Z (0)%Z (0)%Z (0)%Z [(280)%Z] [])]).
-Definition mi_id_literal : minfo := (mkMinfo [((1)%Z, (1)%Z, true)]).
+Definition mi_id_literal : minfo := (mkMinfo [((1)%Z, (1)%Z, true)] 1).
 
 Definition w_evid_other_records : dataset :=
   (mkDs (mkSchema true false true false false false false false true true true) [
@@ -50,14 +52,14 @@ Definition w_evid_other_records : dataset :=
     (mkRow (2)%Z (1)%Z (8)%Z (0)%Z (0)%Z (0)%Z (1)%Z (0)%Z (0)%Z (0)%Z (0)%Z (0)%Z [(280)%Z] []); 
     (mkRow (3)%Z (1)%Z (12)%Z (0)%Z (16)%Z (0)%Z (0)%Z (0)%Z (0)%Z (0)%Z (0)%Z (0)%Z [(280)%Z] []); 
     (mkRow (4)%Z (1)%Z (16)%Z (40)%Z (0)%Z (0)%Z (1)%Z (0)%Z (0)%Z (0)%Z (0)%Z (0)%Z [(280)%Z] [])]).
-Definition mi_evid_other_records : minfo := (mkMinfo [((1)%Z, (1)%Z, true)]).
+Definition mi_evid_other_records : minfo := (mkMinfo [((1)%Z, (1)%Z, true)] 1).
 
 Definition w_squeeze_single : dataset :=
   (mkDs (mkSchema true false false false false false false false true true true) [
     (mkRow (0)%Z (1)%Z (0)%Z (40)%Z (0)%Z (0)%Z (0)%Z (0)%Z (0)%Z (0)%Z (0)%Z (0)%Z [(280)%Z] []); 
     (mkRow (1)%Z (1)%Z (4)%Z (0)%Z (12)%Z (0)%Z (0)%Z (0)%Z (0)%Z (0)%Z (0)%Z (0)%Z [(280)%Z] []); 
     (mkRow (2)%Z (1)%Z (8)%Z (40)%Z (0)%Z (0)%Z (0)%Z (0)%Z (0)%Z (0)%Z (0)%Z (0)%Z [(280)%Z] [])]).
-Definition mi_squeeze_single : minfo := (mkMinfo [((1)%Z, (1)%Z, true)]).
+Definition mi_squeeze_single : minfo := (mkMinfo [((1)%Z, (1)%Z, true)] 1).
 
 Definition w_expand_id_order : dataset :=
   (mkDs (mkSchema true false false false false false true true true true true) [
@@ -65,7 +67,7 @@ Definition w_expand_id_order : dataset :=
     (mkRow (1)%Z (2)%Z (20)%Z (0)%Z (12)%Z (0)%Z (0)%Z (0)%Z (0)%Z (0)%Z (0)%Z (0)%Z [(280)%Z] []); 
     (mkRow (2)%Z (1)%Z (0)%Z (40)%Z (0)%Z (0)%Z (0)%Z (0)%Z (0)%Z (0)%Z (0)%Z (0)%Z [(240)%Z] []); 
     (mkRow (3)%Z (1)%Z (4)%Z (0)%Z (16)%Z (0)%Z (0)%Z (0)%Z (0)%Z (0)%Z (0)%Z (0)%Z [(240)%Z] [])]).
-Definition mi_expand_id_order : minfo := (mkMinfo [((1)%Z, (1)%Z, true)]).
+Definition mi_expand_id_order : minfo := (mkMinfo [((1)%Z, (1)%Z, true)] 1).
 
 Definition w_expand_explicit_index : dataset :=
   (mkDs (mkSchema true false false false false false true true true false true) [
@@ -73,7 +75,7 @@ Definition w_expand_explicit_index : dataset :=
     (mkRow (1)%Z (1)%Z (20)%Z (0)%Z (12)%Z (0)%Z (0)%Z (0)%Z (0)%Z (0)%Z (0)%Z (0)%Z [(280)%Z] []); 
     (mkRow (2)%Z (1)%Z (24)%Z (40)%Z (0)%Z (0)%Z (0)%Z (0)%Z (0)%Z (0)%Z (0)%Z (0)%Z [(280)%Z] []); 
     (mkRow (3)%Z (1)%Z (28)%Z (0)%Z (16)%Z (0)%Z (0)%Z (0)%Z (0)%Z (0)%Z (0)%Z (0)%Z [(280)%Z] [])]).
-Definition mi_expand_explicit_index : minfo := (mkMinfo [((1)%Z, (1)%Z, true)]).
+Definition mi_expand_explicit_index : minfo := (mkMinfo [((1)%Z, (1)%Z, true)] 1).
 
 Definition w_tad_reorder_tie : dataset :=
   (mkDs (mkSchema true false false false false false false false true true true) [
@@ -81,7 +83,7 @@ Definition w_tad_reorder_tie : dataset :=
     (mkRow (1)%Z (1)%Z (20)%Z (40)%Z (0)%Z (0)%Z (0)%Z (0)%Z (0)%Z (0)%Z (0)%Z (0)%Z [(280)%Z] []); 
     (mkRow (2)%Z (1)%Z (20)%Z (0)%Z (28)%Z (0)%Z (0)%Z (0)%Z (0)%Z (0)%Z (0)%Z (0)%Z [(280)%Z] []); 
     (mkRow (3)%Z (1)%Z (24)%Z (0)%Z (32)%Z (0)%Z (0)%Z (0)%Z (0)%Z (0)%Z (0)%Z (0)%Z [(280)%Z] [])]).
-Definition mi_tad_reorder_tie : minfo := (mkMinfo [((1)%Z, (1)%Z, true)]).
+Definition mi_tad_reorder_tie : minfo := (mkMinfo [((1)%Z, (1)%Z, true)] 1).
 
 Definition w_tad_reorder_id : dataset :=
   (mkDs (mkSchema true false false false false false false false true true true) [
@@ -89,7 +91,7 @@ Definition w_tad_reorder_id : dataset :=
     (mkRow (1)%Z (2)%Z (20)%Z (0)%Z (4)%Z (0)%Z (0)%Z (0)%Z (0)%Z (0)%Z (0)%Z (0)%Z [(280)%Z] []); 
     (mkRow (2)%Z (1)%Z (0)%Z (40)%Z (0)%Z (0)%Z (0)%Z (0)%Z (0)%Z (0)%Z (0)%Z (0)%Z [(240)%Z] []); 
     (mkRow (3)%Z (1)%Z (20)%Z (0)%Z (28)%Z (0)%Z (0)%Z (0)%Z (0)%Z (0)%Z (0)%Z (0)%Z [(240)%Z] [])]).
-Definition mi_tad_reorder_id : minfo := (mkMinfo [((1)%Z, (1)%Z, true)]).
+Definition mi_tad_reorder_id : minfo := (mkMinfo [((1)%Z, (1)%Z, true)] 1).
 
 Definition w_tad_reset_negative : dataset :=
   (mkDs (mkSchema true true false false false false false false true true true) [
@@ -98,7 +100,7 @@ Definition w_tad_reset_negative : dataset :=
     (mkRow (2)%Z (1)%Z (4)%Z (0)%Z (0)%Z (3)%Z (0)%Z (0)%Z (0)%Z (0)%Z (0)%Z (0)%Z [(280)%Z] []); 
     (mkRow (3)%Z (1)%Z (8)%Z (0)%Z (20)%Z (0)%Z (0)%Z (0)%Z (0)%Z (0)%Z (0)%Z (0)%Z [(280)%Z] []); 
     (mkRow (4)%Z (1)%Z (12)%Z (0)%Z (24)%Z (0)%Z (0)%Z (0)%Z (0)%Z (0)%Z (0)%Z (0)%Z [(280)%Z] [])]).
-Definition mi_tad_reset_negative : minfo := (mkMinfo [((1)%Z, (1)%Z, true)]).
+Definition mi_tad_reset_negative : minfo := (mkMinfo [((1)%Z, (1)%Z, true)] 1).
 
 Definition w_tad_id_dtype : dataset :=
   (mkDs (mkSchema true false false false false false true true true true true) [
@@ -106,7 +108,7 @@ Definition w_tad_id_dtype : dataset :=
     (mkRow (1)%Z (1)%Z (20)%Z (0)%Z (12)%Z (0)%Z (0)%Z (0)%Z (0)%Z (0)%Z (0)%Z (0)%Z [(280)%Z] []); 
     (mkRow (2)%Z (1)%Z (52)%Z (0)%Z (16)%Z (0)%Z (0)%Z (0)%Z (0)%Z (0)%Z (0)%Z (0)%Z [(280)%Z] []); 
     (mkRow (3)%Z (1)%Z (120)%Z (40)%Z (0)%Z (0)%Z (0)%Z (0)%Z (0)%Z (0)%Z (0)%Z (0)%Z [(280)%Z] [])]).
-Definition mi_tad_id_dtype : minfo := (mkMinfo [((1)%Z, (1)%Z, true)]).
+Definition mi_tad_id_dtype : minfo := (mkMinfo [((1)%Z, (1)%Z, true)] 1).
 
 Definition w_tvc_no_covariates : dataset :=
   (mkDs (mkSchema true false false false false false false false true true true) [
@@ -114,7 +116,7 @@ Definition w_tvc_no_covariates : dataset :=
     (mkRow (1)%Z (1)%Z (4)%Z (0)%Z (12)%Z (0)%Z (0)%Z (0)%Z (0)%Z (0)%Z (0)%Z (0)%Z [] []); 
     (mkRow (2)%Z (1)%Z (8)%Z (0)%Z (16)%Z (0)%Z (0)%Z (0)%Z (0)%Z (0)%Z (0)%Z (0)%Z [] []); 
     (mkRow (3)%Z (1)%Z (12)%Z (40)%Z (0)%Z (0)%Z (0)%Z (0)%Z (0)%Z (0)%Z (0)%Z (0)%Z [] [])]).
-Definition mi_tvc_no_covariates : minfo := (mkMinfo [((1)%Z, (1)%Z, true)]).
+Definition mi_tvc_no_covariates : minfo := (mkMinfo [((1)%Z, (1)%Z, true)] 1).
 
 Definition w_cmt_unbound : dataset :=
   (mkDs (mkSchema true false false false true false false false true true true) [
@@ -122,7 +124,7 @@ Definition w_cmt_unbound : dataset :=
     (mkRow (1)%Z (1)%Z (4)%Z (0)%Z (12)%Z (0)%Z (0)%Z (0)%Z (1)%Z (0)%Z (0)%Z (0)%Z [(280)%Z] []); 
     (mkRow (2)%Z (1)%Z (8)%Z (0)%Z (16)%Z (0)%Z (0)%Z (0)%Z (1)%Z (0)%Z (0)%Z (0)%Z [(280)%Z] []); 
     (mkRow (3)%Z (1)%Z (12)%Z (40)%Z (0)%Z (0)%Z (0)%Z (0)%Z (1)%Z (0)%Z (0)%Z (0)%Z [(280)%Z] [])]).
-Definition mi_cmt_unbound : minfo := (mkMinfo [((1)%Z, (1)%Z, false)]).
+Definition mi_cmt_unbound : minfo := (mkMinfo [((1)%Z, (1)%Z, false)] 2).
 
 Definition w_admid_evid4 : dataset :=
   (mkDs (mkSchema true true false true false false false false true true true) [
@@ -130,7 +132,7 @@ Definition w_admid_evid4 : dataset :=
     (mkRow (1)%Z (1)%Z (4)%Z (0)%Z (12)%Z (0)%Z (0)%Z (2)%Z (0)%Z (0)%Z (0)%Z (0)%Z [(280)%Z] []); 
     (mkRow (2)%Z (1)%Z (8)%Z (40)%Z (0)%Z (4)%Z (0)%Z (2)%Z (0)%Z (0)%Z (0)%Z (0)%Z [(280)%Z] []); 
     (mkRow (3)%Z (1)%Z (12)%Z (0)%Z (16)%Z (0)%Z (0)%Z (2)%Z (0)%Z (0)%Z (0)%Z (0)%Z [(280)%Z] [])]).
-Definition mi_admid_evid4 : minfo := (mkMinfo [((1)%Z, (1)%Z, false); ((2)%Z, (2)%Z, true)]).
+Definition mi_admid_evid4 : minfo := (mkMinfo [((1)%Z, (1)%Z, false); ((2)%Z, (2)%Z, true)] 2).
 
 Definition ann_of (d : dataset) := ann (ds_sch d) (ds_rows d).
 
@@ -195,56 +197,61 @@ Proof.
   split; [vm_compute; reflexivity|]. split; vm_compute; reflexivity.
 Qed.
 
-(* an explicit (non-Range) index and a record with ADDL > 0 *)
-Theorem expand_index_refuted :
-  exists d, range_index (ds_sch d) = false /\ g_labels_range (ds_rows d) = true
-            /\ expand_impl d = Err ValueError /\ tad_impl d = Err ValueError.
-Proof. exists w_expand_explicit_index. repeat split; vm_compute; reflexivity. Qed.
+(* formerly ValueError: an explicit (non-Range) index and a record with ADDL > 0 (fix 96db805) *)
+Example expand_index_fixed :
+  range_index (ds_sch w_expand_explicit_index) = false
+  /\ option_map (map (fun p : row * bool => (r_time (fst p), snd p)))
+       (match expand_impl w_expand_explicit_index with Ok l => Some l | Err _ => None end)
+     = Some [(0, false); (20, false); (24, false); (28, false); (48, true)]
+  /\ option_map (map snd) (match tad_impl w_expand_explicit_index with Ok l => Some l | Err _ => None end)
+     = Some [0; 20; 0; 4].
+Proof. repeat split; vm_compute; reflexivity. Qed.
 
-(* the sort by _DOSEID is never undone: the observation tied with the second dose moves before it *)
-Theorem tad_reorder_tie_refuted :
-  exists d out, guard_tad_frame d = false /\ g_ids_ascending (ds_rows d) = true /\ tad_impl d = Ok out
-    /\ map (fun p : row * Z => r_amt (fst p)) out = [40; 0; 40; 0]
-    /\ map r_amt (ds_rows d) = [40; 40; 0; 0].
-Proof.
-  exists w_tad_reorder_tie. eexists. split; [vm_compute; reflexivity|]. split; [vm_compute; reflexivity|].
-  split; [vm_compute; reflexivity|]. split; vm_compute; reflexivity.
-Qed.
+(* formerly the observation tied with the second dose was moved before it (fix 8de2b00): the records
+   keep their order, the moved observation has the time since the PRECEDING dose *)
+Example tad_reorder_tie_fixed :
+  guard_tad_frame w_tad_reorder_tie = false
+  /\ option_map (map (fun p : row * Z => (r_amt (fst p), snd p)))
+       (match tad_impl w_tad_reorder_tie with Ok l => Some l | Err _ => None end)
+     = Some [(40, 0); (40, 0); (0, 20); (0, 4)]
+  /\ map r_amt (ds_rows w_tad_reorder_tie) = [40; 40; 0; 0]
+  /\ tad_walk w_tad_reorder_tie = [0; 0; 20; 4].
+Proof. repeat split; vm_compute; reflexivity. Qed.
 
-(* groupby(id) returns the individuals in ascending id order *)
-Theorem tad_reorder_id_refuted :
-  exists d out, guard_tad_frame d = false /\ g_ids_ascending (ds_rows d) = false /\ tad_impl d = Ok out
-    /\ map (fun p : row * Z => r_id (fst p)) out = [1; 1; 2; 2]
-    /\ map r_id (ds_rows d) = [2; 2; 1; 1].
-Proof.
-  exists w_tad_reorder_id. eexists. split; [vm_compute; reflexivity|]. split; [vm_compute; reflexivity|].
-  split; [vm_compute; reflexivity|]. split; vm_compute; reflexivity.
-Qed.
+(* formerly the individuals came back in ascending id order *)
+Example tad_reorder_id_fixed :
+  g_ids_ascending (ds_rows w_tad_reorder_id) = false
+  /\ option_map (map (fun p : row * Z => (r_id (fst p), snd p)))
+       (match tad_impl w_tad_reorder_id with Ok l => Some l | Err _ => None end)
+     = Some [(2, 0); (2, 20); (1, 0); (1, 20)].
+Proof. repeat split; vm_compute; reflexivity. Qed.
 
 (* a reset event with restarted time: negative time after dose *)
 Theorem tad_negative_refuted :
   exists d out, guard_tad_chrono d = false /\ tad_impl d = Ok out /\ map snd out = [0; 0; -36; -32; -28].
 Proof. exists w_tad_reset_negative. eexists. split; [vm_compute; reflexivity|]. split; vm_compute; reflexivity. Qed.
 
-(* with ADDL/II the id column comes back as float64 *)
-Theorem tad_id_dtype_refuted :
-  exists d, id_is_int (ds_sch d) = true /\ expand_id_is_int d = false
-            /\ match tad_impl d with Ok _ => true | Err _ => false end = true.
-Proof. exists w_tad_id_dtype. repeat split; vm_compute; reflexivity. Qed.
+(* formerly float64: with ADDL/II the id column keeps its dtype (fix 64ec1fd) *)
+Example tad_id_dtype_fixed :
+  id_is_int (ds_sch w_tad_id_dtype) = true /\ expand_id_is_int w_tad_id_dtype = true
+  /\ match tad_impl w_tad_id_dtype with Ok _ => true | Err _ => false end = true.
+Proof. repeat split; vm_compute; reflexivity. Qed.
 
 (* formerly IndexError: no covariate column *)
 Example tvc_no_covariates_fixed : tvc_impl 0 w_tvc_no_covariates = Ok [] /\ tvc_walk 0 w_tvc_no_covariates = [].
 Proof. split; reflexivity. Qed.
 
-(* admid column, central compartment without a dose *)
-Theorem cmt_unbound_refuted :
-  exists mi d, has_admid (ds_sch d) = true /\ existsb (fun c : Z * Z * bool => snd c) (mi_dosing mi) = false
-               /\ cmt_impl mi d = Err UnboundLocalError.
-Proof. exists mi_cmt_unbound, w_cmt_unbound. repeat split; vm_compute; reflexivity. Qed.
+(* formerly UnboundLocalError: admid column, central compartment without a dose (fix 53e373d) *)
+Example cmt_unbound_fixed :
+  existsb (fun c : Z * Z * bool => snd c) (mi_dosing mi_cmt_unbound) = false
+  /\ option_map (map snd) (match cmt_impl mi_cmt_unbound w_cmt_unbound with Ok l => Some l | Err _ => None end)
+     = Some [1; 2; 2; 1].
+Proof. split; vm_compute; reflexivity. Qed.
 
-(* EVID=4 (reset and dose) is not treated as a dose event *)
-Theorem admid_evid4_refuted :
-  exists mi d, existsb (fun v => v =? 4) (evid_walk d) = true
-               /\ option_map (map snd) (match admid_impl mi d with Ok l => Some l | Err _ => None end) = Some [1; 1; 1; 1]
-               /\ admid_ref mi d = Ok [1; 1; 2; 2].
-Proof. exists mi_admid_evid4, w_admid_evid4. repeat split; vm_compute; reflexivity. Qed.
+(* formerly [1; 1; 1; 1]: EVID=4 (reset and dose) is a dose event (fix 1fa817f) *)
+Example admid_evid4_fixed :
+  existsb (fun v => v =? 4) (evid_walk w_admid_evid4) = true
+  /\ option_map (map snd) (match admid_impl mi_admid_evid4 w_admid_evid4 with Ok l => Some l | Err _ => None end)
+     = Some [1; 1; 2; 2]
+  /\ admid_ref mi_admid_evid4 w_admid_evid4 = Ok [1; 1; 2; 2].
+Proof. repeat split; vm_compute; reflexivity. Qed.
